@@ -365,13 +365,16 @@ impl AsServer<'_> {
                 let is_valid = addr.iter().all(|proto| match proto {
                     Protocol::P2pCircuit => false,
                     Protocol::P2p(peer_id) => peer_id == peer,
+                    // Every IP component has to be the observed one, not only the replaced one.
+                    Protocol::Ip4(_) | Protocol::Ip6(_) => proto == observed_ip,
                     _ => true,
                 });
 
                 if !is_valid {
                     return None;
                 }
-                if !addr.iter().any(|p| matches!(p, Protocol::P2p(_))) {
+                // Make the address end with the peer id (all `/p2p` components name `peer`).
+                if !matches!(addr.iter().last(), Some(Protocol::P2p(_))) {
                     addr.push(Protocol::P2p(peer))
                 }
                 // Only collect distinct addresses.
